@@ -25,7 +25,7 @@ except Exception:  # pragma: no cover - e.g. manifest generation without the rep
 PROP = 'C11'
 LEAN_TARGETS = ['VivProps.C11']
 DRIVER = 'Registry'
-REQUIRED_THEOREMS = ['default_dividers_as_in_source', 
+REQUIRED_THEOREMS = ['explicit_state_writes_no_shared_object', 'default_dividers_as_in_source', 
     'table_total', 'table_as_modelled', 'split_conserves', 'split_balanced', 'split_float_halves',
     'split_infinity_copies', 'binomial_conserves', 'split_dict_partitions', 'zero_law', 'set_law',
     'set_value_law', 'null_law', 'no_divide_raises', 'branch_divider_precedence',
